@@ -44,24 +44,31 @@ def job(args):
                 paths.append(p)
                 for j in range(n):
                     want.append((ids[j], f["key"] if shape != "flat" else None))
-            sig = {"way": c["way"], "shape": shape, "paths": c["pathkind"], "files": "3+" if len(paths) >= 3 else str(len(paths)),
+            sig = {"way": c["way"], "root_given": bool(c.get("rootgiven")), "shape": shape, "paths": c["pathkind"], "files": "3+" if len(paths) >= 3 else str(len(paths)),
                    "verify": bool(c["verify"]), "different_schema": c["badschema"] != 0,
                    "empty_file": any(f["rows"] == 0 for f in c["files"])}
             out["evals"] += 1
             os.chdir(root)
             use = [os.path.relpath(p, root) for p in paths] if c["pathkind"] == "rel" else paths
+            if c.get("rootgiven") and c["pathkind"] == "rel":
+                # a given root has to be a prefix of the paths: work from the directory above the collection
+                os.chdir(os.path.dirname(root))
+                use = [os.path.relpath(p, os.path.dirname(root)) for p in paths]
             raised = None
             pf = None
             try:
+                rootkw = {"root": (os.path.basename(root) if c["pathkind"] == "rel" else root)} if c.get("rootgiven") else {}
                 if c["way"] == "list":
-                    pf = fp.ParquetFile(use, verify=bool(c["verify"]))
+                    pf = fp.ParquetFile(use, verify=bool(c["verify"]), **rootkw)
                 elif c["way"] == "dir":
                     pf = fp.ParquetFile("." if c["pathkind"] == "rel" else root, verify=bool(c["verify"]))
                 elif c["way"] == "glob":
                     pat = ("*.parquet" if shape == "flat" else "*/*/*.parquet" if shape in ("hive2", "drill2") else "**/*.parquet")
                     pf = fp.ParquetFile(pat if c["pathkind"] == "rel" else os.path.join(root, pat), verify=bool(c["verify"]))
                 else:
-                    fp.writer.merge(use, verify_schema=bool(c["verify"]))
+                    fp.writer.merge(use, verify_schema=bool(c["verify"]), **rootkw)
+                    if c.get("rootgiven") and not os.path.exists(os.path.join(root, "_metadata")):
+                        raise AssertionError("merge(root=...) did not write _metadata into the given root")
                     pf = fp.ParquetFile(root)
                 df = pf.to_pandas()
                 cnt = pf.count()
@@ -88,7 +95,7 @@ def job(args):
             if cnt != len(exp):
                 out["viol"].append((dict(sig, what="total row count differs from the sum of the files"), ci))
             # with the root inferred from the paths, a directory level shared by ALL files is part of the root
-            if shape in ("hive", "hive2") and len(exp) and len({f["key"] for f in c["files"]}) > 1:
+            if shape in ("hive", "hive2") and len(exp) and (len({f["key"] for f in c["files"]}) > 1 or c.get("rootgiven")):
                 if "k" not in df.columns or (shape == "hive2" and "m" not in df.columns):
                     out["viol"].append((dict(sig, what="partition column not inferred from the directory names"), ci))
                 else:
